@@ -6,6 +6,7 @@ import (
 	"fmt"
 	"io"
 	"os"
+	"sync"
 
 	"github.com/pkg/sftp"
 )
@@ -175,6 +176,111 @@ func c10ReplyMaps(c *Ctx) {
 					ok, why = false, fmt.Sprintf("error-as-given: the handler failed with %v; the client got %s", ec.err, got)
 				}
 				c.Oracle(cn, ok, why)
+			}
+		}
+	}
+}
+
+// kind listpages: "listings as given" over a whole directory handle. The handler's lister holds E entries and hands them out
+// in pages of at most P (0 < n < len(buffer) with a nil error is a legal answer: a paginated backend), the end reported with the
+// last page or on the call after it. The client's ReadDir must return exactly the E names in order, and the lister must have been
+// asked for exactly the offsets its own answers add up to (each call continues where the entries delivered so far end).
+type c10PageLister struct {
+	mu      sync.Mutex
+	ents    []os.FileInfo
+	page    int
+	eofWith bool
+	asked   []int64
+}
+
+func (l *c10PageLister) ListAt(out []os.FileInfo, off int64) (int, error) {
+	l.mu.Lock()
+	defer l.mu.Unlock()
+	l.asked = append(l.asked, off)
+	if off >= int64(len(l.ents)) {
+		return 0, io.EOF
+	}
+	n := len(out)
+	if n > l.page {
+		n = l.page
+	}
+	n = copy(out[:n], l.ents[off:])
+	if l.eofWith && int(off)+n == len(l.ents) {
+		return n, io.EOF
+	}
+	return n, nil
+}
+
+type c10PageHandlers struct {
+	nullHandlers
+	l *c10PageLister
+}
+
+func (h c10PageHandlers) Filelist(r *sftp.Request) (sftp.ListerAt, error) {
+	if r.Method == "List" {
+		return h.l, nil
+	}
+	return oneLister{memInfo{"d", 0}}, nil
+}
+
+func c10ListPages(c *Ctx) {
+	for _, E := range []int{1, 60, 101, 250} {
+		for _, P := range []int{1, 25, 99, 100, 1000} {
+			if P == 1 && E > 60 {
+				continue
+			}
+			for _, eofWith := range []bool{false, true} {
+				l := &c10PageLister{page: P, eofWith: eofWith}
+				for i := 0; i < E; i++ {
+					l.ents = append(l.ents, memInfo{fmt.Sprintf("e%04d", i), int64(i)})
+				}
+				h := c10PageHandlers{l: l}
+				p, err := newPair(pairOpt{reqServer: true, handlers: sftp.Handlers{FileGet: h, FilePut: h, FileCmd: h, FileList: h}})
+				if err != nil {
+					c.Diag("pair: %v", err)
+					continue
+				}
+				got, lerr := p.Client.ReadDir("/d")
+				p.Close()
+				cn := c.Case("listpages", kvi("entries", E), kvi("page", P), kvb("eofwith", eofWith))
+				if E > P {
+					c.NT(cn)
+				}
+				c.Stat("listpages_cases")
+				why := ""
+				switch {
+				case lerr != nil:
+					why = "listing-as-given: ReadDir failed: " + lerr.Error()
+				case len(got) != E:
+					why = fmt.Sprintf("listing-as-given: the lister holds %d entries (pages of %d); the client got %d", E, P, len(got))
+				default:
+					for i, fi := range got {
+						if fi.Name() != fmt.Sprintf("e%04d", i) {
+							why = fmt.Sprintf("listing-as-given: entry %d is %q", i, fi.Name())
+							break
+						}
+					}
+				}
+				if why == "" {
+					l.mu.Lock()
+					sum := int64(0)
+					for k, off := range l.asked {
+						if off != sum {
+							why = fmt.Sprintf("listing-offsets: call %d of ListAt asked for offset %d, the entries delivered so far end at %d (asked: %v)", k, off, sum, l.asked)
+							break
+						}
+						n := int64(P)
+						if n > sftp.MaxFilelist {
+							n = sftp.MaxFilelist
+						}
+						if sum+n > int64(E) {
+							n = int64(E) - sum
+						}
+						sum += n
+					}
+					l.mu.Unlock()
+				}
+				c.Oracle(cn, why == "", why)
 			}
 		}
 	}
